@@ -232,6 +232,28 @@ def simplex_part(run, tier):
                     coeffs = [1] * nv
                 cons.append((coeffs, r.random() < 0.6, r.randint(-3, 9)))
             r.shuffle(cons)
+        elif _ % 4 == 2:
+            # equalities written as a pair of bounds on the same linear form (lower first or upper first, the same constant or
+            # constants one apart), repeated rows, together with a few ordinary rows
+            nv = r.randint(1, 3)
+            names = ['x%d' % i for i in range(nv)]
+            for _k in range(r.randint(1, 3)):
+                coeffs = [r.choice([1, 1, -1, 2, 3, 0]) for _j in range(nv)]
+                if all(c == 0 for c in coeffs):
+                    coeffs[r.randrange(nv)] = 1
+                b = r.randint(-3, 6)
+                d = r.choice([0, 0, 0, 1, -1])
+                pair = [(coeffs, True, b), (list(coeffs), False, b + d)]
+                if r.random() < 0.3:
+                    pair.reverse()
+                cons += pair
+                if r.random() < 0.2:
+                    cons.append(pair[0])
+            for _k in range(r.randint(0, 2)):
+                coeffs = [r.randint(-2, 2) for _j in range(nv)]
+                if all(c == 0 for c in coeffs):
+                    coeffs[r.randrange(nv)] = 1
+                cons.insert(r.randrange(len(cons) + 1), (coeffs, r.random() < 0.5, r.randint(-4, 6)))
         else:
             for _k in range(r.randint(1, 6)):
                 coeffs = [r.randint(-4, 4) if r.random() < 0.7 else 0 for _j in range(nv)]
@@ -246,7 +268,9 @@ def simplex_part(run, tier):
             try:
                 s.handle_assertion()
                 verdict = 'SAT'
-            except simplex.UNSATException:
+            except (simplex.UNSATException, simplex.AssertUpperException, simplex.AssertLowerException):
+                # a conflict between the two bounds of one linear form is reported by the assert_* exceptions (the callers
+                # -- branch_and_bound, the HOL wrapper -- read them as "no solution")
                 verdict = 'UNSAT'
         except RecursionError:
             raise
